@@ -2,7 +2,7 @@
    byte stay Coq datatypes.  Run from coq/extract:  coqc -Q .. Nodis ../Extract.v *)
 From Coq Require Extraction ExtrOcamlBasic.
 From Nodis Require Import Base.Bytes Base.Varint Model.Codec Model.Num Model.FMap Model.DsStr Model.DsList
-     Model.DsHash Model.DsSet Model.DsZSet Model.Db Model.Api Model.Handlers Model.Conn Model.Reader Model.Conc Spec.Redis.
+     Model.DsHash Model.DsSet Model.DsZSet Model.Db Model.Api Model.Handlers Model.Conn Model.Reader Model.Conc Model.Block Spec.Redis.
 Extraction Blacklist String List Nat Int Char Bytes Buffer.
 Separate Extraction
   Bytes.b2n Bytes.n2b Bytes.bytes_eqb Bytes.bytes_ltb
@@ -15,4 +15,5 @@ Separate Extraction
   Conn.serve Conn.server_new Conn.put_db Conn.get_conn
   Redis.spec_step Redis.purge
   Conc.init_state Conc.run_grants Conc.grant Conc.key_val Conc.reply_of Conc.waiting Conc.pc_tag Conc.ths Conc.t_pc
+  Block.binit Block.bstep Block.bapply Block.enabled Block.breply Block.bpc_tag Block.lget Block.rget Block.wf_cmd
   Api.api_type Reader.ReadCommand Reader.rd_init Reader.enc_cmd Handlers.opt Handlers.opt1 Num.upper.
